@@ -370,4 +370,75 @@ theorem cell_to_parent_eq (index : Nat) (pr : Option Int) :
     | none => exact key _
     | some p => exact key _
 
+
+theorem decide_cast_zero (n : Nat) : decide (((n : Nat) : Int) = 0) = (n == 0) := by
+  cases n with
+  | zero => rfl
+  | succ k =>
+    have h1 : ¬ (((k + 1 : Nat) : Int) = 0) := by omega
+    have h2 : ¬ (k + 1 = 0) := by omega
+    simp only [h1, decide_false]
+    exact (beq_eq_false_iff_ne.2 h2).symm
+
+theorem shl_three (n : Int) : Py.shl 3 n = (shl 3 n).map Int.ofNat := shl_nat 3 n
+
+theorem is_first_child_eq (index : Nat) (res : Option Int) :
+    Src.serialization.is_first_child (index : Int) res = isFirstChild index res := by
+  unfold Src.serialization.is_first_child isFirstChild
+  have h2 : Src.serialization.HILBERT_START_BIT = HSB := by decide
+  have h3 : Src.serialization.MAX_RESOLUTION = MAXR := by decide
+  rw [h2, h3]
+  have key : ∀ r : Int,
+      (if r < 2 then
+          Py.shr (index : Int) HSB >>= fun t2_ =>
+            Py.mod t2_ (if r = 0 then 12 else 5) >>= fun t3_ => (pure (Py.ofProp (t3_ = 0)) : PyM Bool)
+        else Py.shl 3 (2 * (MAXR - r)) >>= fun t4_ => pure (Py.ofProp (Py.band (index : Int) t4_ = 0)))
+      = (if r < 2 then (shr index HSB).bind fun top6 => .ok (top6 % (if r = 0 then 12 else 5) == 0)
+         else (shl 3 (2 * (MAXR - r))).bind fun mask => .ok (index &&& mask == 0)) := by
+    intro r
+    split
+    · rw [shr_nat]
+      cases shr index HSB with
+      | error e => rfl
+      | ok t =>
+        rw [map_ok, bind_ok]
+        show _ = Except.ok _
+        have hm : Py.mod (Int.ofNat t) (if r = 0 then 12 else 5) = .ok (((t % (if r = 0 then 12 else 5) : Nat)) : Int) := by
+          unfold Py.mod
+          split
+          · rw [if_neg (by decide), Int.fmod_eq_emod_of_nonneg _ (by decide)]; rfl
+          · rw [if_neg (by decide), Int.fmod_eq_emod_of_nonneg _ (by decide)]; rfl
+        rw [hm, bind_ok, pure_ok]
+        congr 1
+        exact decide_cast_zero _
+    · rw [shl_three]
+      cases shl 3 (2 * (MAXR - r)) with
+      | error e => rfl
+      | ok m =>
+        rw [map_ok, bind_ok, pure_ok]
+        show _ = Except.ok _
+        congr 1
+        rw [show Int.ofNat m = (m : Int) from rfl, band_nat]
+        exact decide_cast_zero _
+  cases res with
+  | some r => exact key r
+  | none =>
+    show (Src.serialization.get_resolution (index : Int) >>= fun t1_ => pure t1_) >>= _ = _
+    rw [get_resolution_eq, bind_ok, pure_ok, bind_ok]
+    exact key _
+
+theorem hierarchical_key_eq (cell : Nat) :
+    Src.compact._hierarchical_key (cell : Int) = .ok ((hierarchicalKey cell : Nat) : Int) := by
+  unfold Src.compact._hierarchical_key hierarchicalKey
+  have h2 : Src.compact.HILBERT_START_BIT = HSB := by decide
+  rw [h2]
+  show (Src.serialization.get_resolution (cell : Int) >>= _) = _
+  rw [get_resolution_eq, bind_ok]
+  split
+  · rw [shr_nonneg _ _ (by decide), bind_ok,
+      show (4 : Int) * ((cell >>> HSB.toNat : Nat) : Int) = ((4 * (cell >>> HSB.toNat) : Nat) : Int) by push_cast; rfl,
+      shl_nonneg _ _ (by decide), bind_ok, pure_ok]
+    congr 1
+  · rfl
+
 end A5.Bridge
